@@ -72,6 +72,23 @@ def gen_pose(rng, partial=True):
     return {'r': r_h, 't': t_h}
 
 
+def zero_sign_twin(rng, pose):
+    def flip(hs):
+        if hs is None:
+            return None
+        hs = list(hs)
+        zeros = [i for i, h in enumerate(hs) if F(h) == 0.0]
+        if not zeros:
+            # make one: an axis-aligned translation / a quaternion with a zero component keeps the pose plausible
+            i = rng.randrange(1, len(hs)) if len(hs) == 4 else rng.randrange(len(hs))
+            hs[i] = H(0.0)
+            zeros = [i]
+        i = rng.choice(zeros)
+        hs[i] = H(-F(hs[i])) if rng.random() < 0.8 else hs[i]
+        return hs
+    return {'r': flip(pose['r']), 't': flip(pose['t'])}
+
+
 def gen_timestamp(rng, style):
     if style == 'small':
         return rng.randint(0, 30)
@@ -202,7 +219,12 @@ def gen_dataset(rng, opts=None):
         for _ in range(rng.randint(0, o.max_rows)):
             ts = gen_timestamp(rng, style)
             dev = rng.choice(devs)
-            rows[(ts, dev)] = gen_pose(rng, partial=o.partial_poses)
+            if rows and rng.random() < 0.2:
+                # a pose that is an earlier one up to the SIGN OF A ZERO (identity quaternions and axis-aligned translations hold
+                # zeros): numerically equal, not bit-identical — whatever a reader shares between "equal" poses shows here
+                rows[(ts, dev)] = zero_sign_twin(rng, rng.choice(list(rows.values())))
+            else:
+                rows[(ts, dev)] = gen_pose(rng, partial=o.partial_poses)
         d['trajectories'] = [[ts, dev, p] for (ts, dev), p in rows.items()]
 
     images = []
